@@ -373,7 +373,7 @@ pub fn confusion<E: Entry>(g: &mut Gen, st: &mut Stats) -> CaseResult {
     let mut accepted = 0;
     for f in vs_table() { if f(&bytes, &x, enc.len())? { accepted += 1 } }
     st.class(match accepted { 0 => "confusion/accepted-by-0", 1 => "confusion/accepted-by-1", 2 ..= 5 => "confusion/accepted-by-2..5", _ => "confusion/accepted-by-6+" });
-    if accepted >= 1 { st.nontrivial(hash_of(&(E::NAME, &enc))) }
+    if accepted >= 1 { st.nontrivial(crate::registry::stable_hash::<E>(&enc)) }
     st.sample(hash_of(&enc), || format!("{} value as {} offered to {} types, {} accept", E::NAME, short_hex(&enc), vs_table().len(), accepted));
     Ok(())
 }
@@ -415,7 +415,7 @@ pub fn typed_must<E: Entry>(g: &mut Gen, st: &mut Stats) -> CaseResult {
                 st.class(match mode { 1 => "indefinite-containers/refused", _ => "chunked-strings/refused" });
             }
         }
-        if !x.is_preferred() || x.node_count() >= 2 { st.nontrivial(hash_of(&(E::NAME, &enc))) }
+        if !x.is_preferred() || x.node_count() >= 2 { st.nontrivial(crate::registry::stable_hash::<E>(&enc)) }
         st.sample(hash_of(&enc), || format!("{}: {:?} <- {}", E::NAME, v, short_hex(&enc)));
         Ok(())
     })
@@ -537,19 +537,19 @@ pub fn subs() -> Vec<Sub> {
     vec![
         Sub { prop: "C04", name: "small-trees-3", rule: "every item tree with <= 3 nodes over 38 leaf representatives x definite/indefinite containers x every head-width assignment, through every Decoder accessor (value, position, borrow), datatype, Size, probe, skip, and every strict prefix through the matching accessor; non-trivial = non-preferred framing or >= 2 nodes",
               kind: Kind::Enumerate { quick: n3, thorough: n3, f: small3, complete_quick: true, complete_thorough: true } },
-        Sub { prop: "C04", name: "small-trees-4", rule: "same with <= 4 nodes (thorough; quick explores the first 200000 indices)",
-              kind: Kind::Enumerate { quick: 200_000.min(n4), thorough: n4, f: small4, complete_quick: false, complete_thorough: true } },
+        Sub { prop: "C04", name: "small-trees-4", rule: "same with <= 4 nodes (thorough; quick explores the first 1000000 indices)",
+              kind: Kind::Enumerate { quick: 1_000_000.min(n4), thorough: n4, f: small4, complete_quick: false, complete_thorough: true } },
         Sub { prop: "C04", name: "random-trees", rule: "grammar-generated trees (depth <= 8, <= 64 nodes, all framings) through every accessor; distinct by encoding",
-              kind: Kind::Random { quick: 60_000, thorough: 3_000_000, tape: 1024, f: random_trees } },
+              kind: Kind::Random { quick: 300_000, thorough: 3_000_000, tape: 1024, f: random_trees } },
         Sub { prop: "C04", name: "typed", rule: "value of a registry type -> model item -> re-framed (wider heads: must decode to the value; indefinite containers: must for iterator-based types, else value-or-error; chunked strings: value-or-error) -> decode as the type; every strict prefix must fail with end-of-input",
-              kind: Kind::Random { quick: 200_000, thorough: 8_000_000, tape: 1024, f: typed } },
+              kind: Kind::Random { quick: 1_000_000, thorough: 8_000_000, tape: 1024, f: typed } },
         Sub { prop: "C04", name: "type-confusion", rule: "re-framed encoding of a value of one type offered to all ~120 registry types: each returns an error or a value whose model equals the data-model value of the bytes (exact position); non-trivial = accepted by >= 1 type",
-              kind: Kind::Random { quick: 20_000, thorough: 1_000_000, tape: 1024, f: type_confusion } },
+              kind: Kind::Random { quick: 100_000, thorough: 1_000_000, tape: 1024, f: type_confusion } },
         Sub { prop: "C04", name: "trees-vs-types", rule: "arbitrary small trees offered to all registry types, same oracle",
-              kind: Kind::Random { quick: 20_000, thorough: 1_000_000, tape: 512, f: trees_vs_types } },
+              kind: Kind::Random { quick: 100_000, thorough: 1_000_000, tape: 512, f: trees_vs_types } },
         Sub { prop: "C04", name: "iterators", rule: "homogeneous arrays/maps (definite and indefinite, wide heads) through array_iter/map_iter with an optional planted element of the wrong type",
-              kind: Kind::Random { quick: 40_000, thorough: 1_000_000, tape: 512, f: iterators } },
+              kind: Kind::Random { quick: 200_000, thorough: 1_000_000, tape: 512, f: iterators } },
         Sub { prop: "C04", name: "invalid-utf8", rule: "text items (definite and chunked) carrying an invalid UTF-8 sequence must be rejected by str, str_iter, String, &str, PathBuf",
-              kind: Kind::Random { quick: 20_000, thorough: 400_000, tape: 64, f: invalid_utf8 } },
+              kind: Kind::Random { quick: 100_000, thorough: 400_000, tape: 64, f: invalid_utf8 } },
     ]
 }
